@@ -201,6 +201,8 @@ class Model:
             elif kind == "yield":
                 got = yield ("yield", a[1])
                 self.L(Kw("resumed"), f.fid, got)
+            elif kind == "yield-silent":
+                yield ("yield", a[1])
             elif kind == "signal":
                 n = a[1]
                 if n <= 4:
@@ -212,7 +214,14 @@ class Model:
             elif kind == "return":
                 return a[1]
             elif kind == "spawn":
-                c = MFiber(a[1], a[2], a[4], self.ensure_env(f) if a[3] in ("i", "p") else None, a[3])
+                cbody = a[4]
+                if len(a) > 5 and a[5] == "generate":
+                    # (generate [_ :range [0 1]] body...): the body's value is yielded, a further resume ends the fiber with nil
+                    if cbody and cbody[-1][0] == "return":
+                        cbody = cbody[:-1] + [("yield-silent", cbody[-1][1])]
+                    else:
+                        cbody = cbody + [("yield-silent", None)]
+                c = MFiber(a[1], a[2], cbody, self.ensure_env(f) if a[3] in ("i", "p") else None, a[3])
                 self.fibers[a[1]] = c
             elif kind in ("resume", "cancel"):
                 c = self.fibers[a[1]]
@@ -334,7 +343,12 @@ class Gen:
                 mask = r.choice([None, "", "y", "e", "a", "t", "ye", "u", "y5", "e0", "yu", "d", "w", "r", "t7", "y9", "e123"])
                 envflag = r.choice(["", "", "i", "p"])
                 cbody = self.body(depth - 1, 2)
-                acts.append(("spawn", cid, mask, envflag, cbody))
+                flavour = None
+                if r.random() < 0.15:
+                    # the coro / generate macros: yield-only mask, environment inherited from the creator
+                    flavour = r.choice(["coro", "generate"])
+                    mask, envflag = "y", "i"
+                acts.append(("spawn", cid, mask, envflag, cbody, flavour))
                 kids.append(cid)
                 acts.append((r.choice(["resume", "resume", "presume"]), cid, self.val()))
             elif c < 0.68 and kids:
@@ -385,7 +399,12 @@ def emit_block(acts, fid, indent=1, fiber_body=False):
             cid, mask, envflag, cbody = a[1], a[2], a[3], a[4]
             flags = None if (mask is None and not envflag) else (mask or "") + envflag
             body = emit_block(cbody, cid, indent + 1, True)
-            if flags is None:
+            flavour = a[5] if len(a) > 5 else None
+            if flavour == "coro":
+                out.append("(def F%d (coro\n%s))" % (cid, body))
+            elif flavour == "generate":
+                out.append("(def F%d (generate [gi :range [0 1]]\n%s))" % (cid, body))
+            elif flags is None:
                 out.append("(def F%d (fiber/new (fn []\n%s)))" % (cid, body))
             else:
                 out.append("(def F%d (fiber/new (fn []\n%s) :%s))" % (cid, body, flags) if flags else "(def F%d (fiber/new (fn []\n%s) \"\"))" % (cid, body))
